@@ -816,6 +816,330 @@ Proof.
   - intros. apply (equal_agree rho X X' HR). assumption.
 Qed.
 
+(* ------------------------------------------------------------------ re-emission of values (imports) *)
+Section REEMIT_PROOFS.
+Variable bytes_of : nat -> list Z.
+
+(* value_ind' above lives in Section SIM; restate it at top level *)
+Lemma value_rect' (Q : value -> Prop) :
+  (forall z, Q (VInt z)) -> (forall h, Q (VBin h)) -> (forall r, Q (VRef r)) ->
+  (forall t fs, Forall Q fs -> Q (VTuple t fs)) -> (forall f cs, Forall Q cs -> Q (VFun f cs)) ->
+  (forall b, Q (VBuiltin b)) -> (forall p f, Q (VProc p f)) -> (forall r ty, Q (VRes r ty)) ->
+  forall v, Q v.
+Proof.
+  intros Hi Hb Hr Ht Hf Hbi Hp Hre. fix IH 1. intros v. destruct v.
+  - apply Hi. - apply Hb. - apply Hr.
+  - apply Ht. induction fs as [|x t0 IHl]; constructor; [apply IH | exact IHl].
+  - apply Hf. induction caps as [|x t0 IHl]; constructor; [apply IH | exact IHl].
+  - apply Hbi. - apply Hp. - apply Hre.
+Qed.
+
+(* the program only grows: constants are appended, everything else is untouched *)
+Definition prefix {A} (l m : list A) : Prop := exists r, m = l ++ r.
+Definition extends (X Y : xprogram) : Prop :=
+  prefix (x_consts X) (x_consts Y) /\ prefix (x_funcs X) (x_funcs Y) /\ prefix (x_tuples X) (x_tuples Y) /\
+  prefix (x_builtins X) (x_builtins Y).
+
+Lemma prefix_refl {A} (l : list A) : prefix l l.
+Proof. exists []. rewrite app_nil_r. reflexivity. Qed.
+Lemma prefix_trans {A} (l m n : list A) : prefix l m -> prefix m n -> prefix l n.
+Proof. intros [r1 H1] [r2 H2]. exists (r1 ++ r2). rewrite H2, H1, app_assoc. reflexivity. Qed.
+Lemma prefix_nth {A} (l m : list A) k x : prefix l m -> nth_error l k = Some x -> nth_error m k = Some x.
+Proof. intros [r H] E. rewrite H, nth_error_app1; [exact E|]. apply nth_error_Some. congruence. Qed.
+Lemma prefix_len {A} (l m : list A) : prefix l m -> length l <= length m.
+Proof. intros [r H]. rewrite H, app_length. lia. Qed.
+
+Lemma extends_refl X : extends X X.
+Proof. repeat split; apply prefix_refl. Qed.
+
+Lemma extends_trans X Y Z : extends X Y -> extends Y Z -> extends X Z.
+Proof. intros (A1 & B1 & C1 & D1) (A2 & B2 & C2 & D2). repeat split; eapply prefix_trans; eauto. Qed.
+
+Lemma extends_const X Y k c : extends X Y -> nth_error (x_consts X) k = Some c -> nth_error (x_consts Y) k = Some c.
+Proof. intros (H & _) E. eapply prefix_nth; eauto. Qed.
+
+(* values the emitted code can rebuild: tuples of their arity, closures of their capture count *)
+Inductive wfx (X : xprogram) : value -> Prop :=
+| W_int z : wfx X (VInt z)
+| W_bin h : wfx X (VBin h)
+| W_tuple t fs a : nth_error (x_tuples X) t = Some a -> arity a = length fs -> Forall (wfx X) fs -> wfx X (VTuple t fs)
+| W_fun f cs fd : nth_error (x_funcs X) f = Some fd -> xf_caps fd = length cs -> Forall (wfx X) cs -> wfx X (VFun f cs)
+| W_builtin b : b < length (x_builtins X) -> wfx X (VBuiltin b).
+
+Lemma wfx_ext X Y v : extends X Y -> wfx X v -> wfx Y v.
+Proof.
+  intros (_ & F & T & B). revert v.
+  induction v as [z|h|r|t fs IH|f cs IH|b|pp f|r ty] using value_rect'; intros Hw; inversion Hw; subst.
+  - constructor.
+  - constructor.
+  - econstructor; [eapply prefix_nth; eassumption | assumption |].
+    rewrite Forall_forall in *. intros x Hx. apply IH; auto.
+  - econstructor; [eapply prefix_nth; eassumption | assumption |].
+    rewrite Forall_forall in *. intros x Hx. apply IH; auto.
+  - constructor. pose proof (prefix_len _ _ B). lia.
+Qed.
+
+Lemma xconst_eqb_eq a b : xconst_eqb a b = true -> a = b.
+Proof.
+  destruct a, b; cbn; intros H; try discriminate.
+  - apply Z.eqb_eq in H. congruence.
+  - f_equal. apply (list_eqb_eq Z.eqb); [intros x y E; apply Z.eqb_eq; exact E | exact H].
+Qed.
+
+Lemma find_index_spec {A} (p : A -> bool) l : forall i0 i, find_index p l i0 = Some i ->
+  exists x, nth_error l (i - i0) = Some x /\ p x = true /\ i0 <= i.
+Proof.
+  induction l as [|x l IH]; intros i0 i H; cbn [find_index] in H; [discriminate|].
+  destruct (p x) eqn:E.
+  - inv H. rewrite Nat.sub_diag. exists x. auto.
+  - apply IH in H. destruct H as (y & Hy & Hp & Hle). exists y.
+    replace (i - i0) with (S (i - S i0)) by lia. cbn [nth_error]. repeat split; auto. lia.
+Qed.
+
+(* program.rs:60 register_constant returns an index that holds the constant, and only appends *)
+Lemma register_constant_spec X c X1 k : register_constant X c = (X1, k) ->
+  extends X X1 /\ nth_error (x_consts X1) k = Some c.
+Proof.
+  unfold register_constant. destruct (find_index (xconst_eqb c) (x_consts X) 0) as [i|] eqn:E; intros H; inv H.
+  - split; [apply extends_refl|]. apply find_index_spec in E. destruct E as (x & Hx & Hp & _).
+    rewrite Nat.sub_0_r in Hx. apply xconst_eqb_eq in Hp. congruence.
+  - split.
+    + repeat split; cbn; try apply prefix_refl. exists [c]. reflexivity.
+    + cbn [with_consts x_consts]. rewrite nth_error_app2 by lia. rewrite Nat.sub_diag. reflexivity.
+Qed.
+
+(* the inner loops of emit_cached, named *)
+Fixpoint emit_list (l : list value) (X : xprogram) : option (xprogram * list instr) :=
+  match l with
+  | [] => Some (X, [])
+  | e :: l' => match emit_cached bytes_of e X with
+               | Some (X1, i1) => match emit_list l' X1 with
+                                  | Some (X2, i2) => Some (X2, i1 ++ i2)
+                                  | None => None
+                                  end
+               | None => None
+               end
+  end.
+
+Lemma emit_cached_tuple t fs X :
+  emit_cached bytes_of (VTuple t fs) X =
+  match emit_list fs X with Some (X1, is) => Some (X1, is ++ [ITuple t]) | None => None end.
+Proof.
+  cbn [emit_cached].
+  match goal with |- match ?a with _ => _ end = match ?b with _ => _ end => assert (E : a = b) end.
+  { revert X. induction fs as [|e l IH]; intros X; cbn [emit_list]; [reflexivity|].
+    destruct (emit_cached bytes_of e X) as [[X1 i1]|]; [|reflexivity]. rewrite IH. reflexivity. }
+  rewrite E. reflexivity.
+Qed.
+
+Lemma emit_cached_fun f cs X :
+  emit_cached bytes_of (VFun f cs) X =
+  match nth_error (x_funcs X) f with
+  | None => None
+  | Some _ => match emit_list cs X with Some (X1, is) => Some (X1, is ++ [IFunction f]) | None => None end
+  end.
+Proof.
+  cbn [emit_cached]. destruct (nth_error (x_funcs X) f); [|reflexivity].
+  match goal with |- match ?a with _ => _ end = match ?b with _ => _ end => assert (E : a = b) end.
+  { revert X. induction cs as [|e l IH]; intros X; cbn [emit_list]; [reflexivity|].
+    destruct (emit_cached bytes_of e X) as [[X1 i1]|]; [|reflexivity]. rewrite IH. reflexivity. }
+  rewrite E. reflexivity.
+Qed.
+
+Lemma run_app P xs1 : forall s xs2,
+  run P s (xs1 ++ xs2) = match run P s xs1 with Next s' => run P s' xs2 | r => r end.
+Proof.
+  induction xs1 as [|x t IH]; intros s xs2; cbn [run Datatypes.app]; [reflexivity|].
+  destruct (step P s x); [apply IH | reflexivity | reflexivity].
+Qed.
+
+Lemma popn_rev l : forall st acc, popn (length l) (rev l ++ st) acc = Some (l ++ acc, st).
+Proof.
+  induction l as [|x l IH] using rev_ind; intros st acc; [reflexivity|].
+  rewrite rev_app_distr, app_length. cbn [rev Datatypes.app length]. rewrite Nat.add_1_r. cbn [popn].
+  rewrite IH, <- app_assoc. reflexivity.
+Qed.
+
+(* the machine state while straight-line code of frame (fn, base, caps) runs *)
+Definition at_pc (st lo : list value) (fn base caps pc : nat) (rest : list frame) (pers : bool) : state :=
+  {| stack := st; locals := lo;
+     frames := {| fr_fn := fn; fr_base := base; fr_caps := caps; fr_pc := pc |} :: rest; persistent := pers |}.
+
+(* "running `code`, found at offset |pre| of function fn, with inputs xs, pushes vs (last on top)" *)
+Definition pushes (Y : xprogram) (code : list instr) (xs : list ext) (vs : list value) : Prop :=
+  forall fn fd pre post st lo base caps rest pers,
+    nth_error (x_funcs Y) fn = Some fd -> xf_code fd = pre ++ code ++ post ->
+    run (project Y) (at_pc st lo fn base caps (length pre) rest pers) xs =
+    Next (at_pc (rev vs ++ st) lo fn base caps (length pre + length code) rest pers).
+
+Lemma step_at Y fn fd pre i post :
+  nth_error (x_funcs Y) fn = Some fd -> xf_code fd = pre ++ i :: post ->
+  code_of (project Y) fn = Some (pre ++ i :: post) /\ nth_error (pre ++ i :: post) (length pre) = Some i.
+Proof.
+  intros Hfd Hc. split.
+  - unfold code_of, project; cbn [p_funcs]. rewrite (nth_error_map_some erase_func _ _ _ Hfd). cbn. congruence.
+  - rewrite nth_error_app2 by lia. rewrite Nat.sub_diag. reflexivity.
+Qed.
+
+Definition quiet : ext := {| x_value := None; x_bool := false |}.
+
+Lemma pushes_one Y i x v :
+  (forall fn fd pre post st lo base caps rest pers,
+     nth_error (x_funcs Y) fn = Some fd -> xf_code fd = pre ++ [i] ++ post ->
+     step (project Y) (at_pc st lo fn base caps (length pre) rest pers) x =
+     Next (at_pc (v :: st) lo fn base caps (S (length pre)) rest pers)) ->
+  pushes Y [i] [x] [v].
+Proof.
+  intros H fn fd pre post st lo base caps rest pers Hfd Hc. cbn [run]. rewrite (H _ _ _ _ _ _ _ _ _ _ Hfd Hc).
+  cbn [rev Datatypes.app length]. rewrite Nat.add_1_r. reflexivity.
+Qed.
+
+Lemma pushes_app Y c1 c2 x1 x2 v1 v2 : pushes Y c1 x1 v1 -> pushes Y c2 x2 v2 ->
+  pushes Y (c1 ++ c2) (x1 ++ x2) (v1 ++ v2).
+Proof.
+  intros H1 H2 fn fd pre post st lo base caps rest pers Hfd Hc.
+  rewrite run_app. rewrite (H1 fn fd pre (c2 ++ post) st lo base caps rest pers Hfd) by (rewrite Hc, <- app_assoc; reflexivity).
+  assert (Hc2 : xf_code fd = (pre ++ c1) ++ c2 ++ post) by (rewrite Hc, <- !app_assoc; reflexivity).
+  pose proof (H2 fn fd (pre ++ c1) post (rev v1 ++ st) lo base caps rest pers Hfd Hc2) as G.
+  rewrite app_length in G. rewrite G. rewrite rev_app_distr, <- app_assoc, app_length. f_equal. f_equal. lia.
+Qed.
+
+(* a constructor instruction that pops the n values just pushed and pushes one *)
+Lemma pushes_then Y code xs vs i v :
+  pushes Y code xs vs ->
+  (forall fn fd pre post st lo base caps rest pers,
+     nth_error (x_funcs Y) fn = Some fd -> xf_code fd = pre ++ [i] ++ post ->
+     step (project Y) (at_pc (rev vs ++ st) lo fn base caps (length pre) rest pers) quiet =
+     Next (at_pc (v :: st) lo fn base caps (S (length pre)) rest pers)) ->
+  pushes Y (code ++ [i]) (xs ++ [quiet]) [v].
+Proof.
+  intros H1 H2 fn fd pre post st lo base caps rest pers Hfd Hc.
+  rewrite run_app. rewrite (H1 fn fd pre ([i] ++ post) st lo base caps rest pers Hfd) by (rewrite Hc, <- app_assoc; reflexivity).
+  assert (Hc2 : xf_code fd = (pre ++ code) ++ [i] ++ post) by (rewrite Hc, <- !app_assoc; reflexivity).
+  cbn [run]. pose proof (H2 fn fd (pre ++ code) post st lo base caps rest pers Hfd Hc2) as G.
+  rewrite app_length in G. rewrite G. cbn [rev Datatypes.app]. rewrite app_length. cbn [length]. f_equal. f_equal. lia.
+Qed.
+
+Lemma emit_inputs_tuple t fs : emit_inputs (VTuple t fs) = flat_map emit_inputs fs ++ [quiet].
+Proof. reflexivity. Qed.
+Lemma emit_inputs_fun f cs : emit_inputs (VFun f cs) = flat_map emit_inputs cs ++ [quiet].
+Proof. reflexivity. Qed.
+
+(* value_reemit, general form: the program only grows, and in ANY later extension of it the emitted
+   code, wherever it sits in a function, pushes exactly v *)
+Lemma emit_cached_pushes v : forall X X1 code, emit_cached bytes_of v X = Some (X1, code) -> wfx X v ->
+  extends X X1 /\ forall Y, extends X1 Y -> pushes Y code (emit_inputs v) [v].
+Proof.
+  induction v as [z|h|r|t fs IH|f cs IH|b|pp f|r ty] using value_rect'; intros X X1 code He Hw.
+  - (* integer constant *)
+    cbn [emit_cached] in He. destruct (register_constant X (XInt z)) as [X0 k] eqn:R. inv He.
+    apply register_constant_spec in R. destruct R as [Hx Hk]. split; [exact Hx|].
+    intros Y HY. apply pushes_one. intros fn fd pre post st lo base caps rest pers Hfd Hc.
+    destruct (step_at Y fn fd pre (IConstant k) post Hfd Hc) as [C N].
+    unfold step, at_pc; cbn [frames fr_fn fr_pc]. rewrite C, N.
+    pose proof (extends_const _ _ _ _ HY Hk) as Hk'.
+    unfold project at 1; cbn [p_consts]. rewrite (nth_error_map_some erase_const _ _ _ Hk'). reflexivity.
+  - (* binary constant: the handle is what allocation hands back *)
+    cbn [emit_cached] in He. destruct (register_constant X (XBin (bytes_of h))) as [X0 k] eqn:R. inv He.
+    apply register_constant_spec in R. destruct R as [Hx Hk]. split; [exact Hx|].
+    intros Y HY. apply pushes_one. intros fn fd pre post st lo base caps rest pers Hfd Hc.
+    destruct (step_at Y fn fd pre (IConstant k) post Hfd Hc) as [C N].
+    unfold step, at_pc; cbn [frames fr_fn fr_pc]. rewrite C, N.
+    pose proof (extends_const _ _ _ _ HY Hk) as Hk'.
+    unfold project at 1; cbn [p_consts]. rewrite (nth_error_map_some erase_const _ _ _ Hk'). reflexivity.
+  - discriminate.
+  - (* tuple *)
+    rewrite emit_cached_tuple in He. destruct (emit_list fs X) as [[X0 is]|] eqn:EL; [|discriminate]. inv He.
+    inversion Hw as [| |t0 fs0 a Ha Har Hfs| |]; subst.
+    assert (L : extends X X1 /\ forall Y, extends X1 Y -> pushes Y is (flat_map emit_inputs fs) fs).
+    { clear Ha Har Hw. revert X X1 is EL Hfs. induction fs as [|e l IHl]; intros X X1 is EL Hfs; cbn [emit_list] in EL.
+      - inv EL. split; [apply extends_refl|]. intros Y _ fn fd pre post st lo base caps rest pers Hfd Hc.
+        cbn. rewrite Nat.add_0_r. reflexivity.
+      - destruct (emit_cached bytes_of e X) as [[Xa ia]|] eqn:Ea; [|discriminate].
+        destruct (emit_list l Xa) as [[Xb ib]|] eqn:Eb; [|discriminate]. inv EL.
+        inversion IH as [|? ? IHe IHrest]; subst. inversion Hfs as [|? ? We Wl]; subst.
+        destruct (IHe _ _ _ Ea We) as [Ext1 P1].
+        assert (Wl' : Forall (wfx Xa) l) by (rewrite Forall_forall in *; intros y Hy; eapply wfx_ext; eauto).
+        destruct (IHl IHrest _ _ _ Eb Wl') as [Ext2 P2].
+        split; [eapply extends_trans; eauto|].
+        intros Y HY. cbn [flat_map]. change (e :: l) with ([e] ++ l). apply pushes_app.
+        + apply P1. eapply extends_trans; eauto.
+        + apply P2. exact HY. }
+    destruct L as [Ext PL]. split; [exact Ext|].
+    intros Y HY. rewrite emit_inputs_tuple. eapply pushes_then; [apply PL; exact HY|].
+    intros fn fd pre post st lo base caps rest pers Hfd Hc.
+    destruct (step_at Y fn fd pre (ITuple t) post Hfd Hc) as [C N].
+    unfold step, at_pc; cbn [frames fr_fn fr_pc stack]. rewrite C, N.
+    assert (HT : nth_error (p_tuples (project Y)) t = Some (length fs)).
+    { unfold project; cbn [p_tuples]. destruct HY as (_ & _ & TY & _). destruct Ext as (_ & _ & T1 & _).
+      rewrite (nth_error_map_some arity _ _ _ (prefix_nth _ _ _ _ TY (prefix_nth _ _ _ _ T1 Ha))), Har. reflexivity. }
+    rewrite HT, popn_rev, app_nil_r. reflexivity.
+  - (* closure: captures are pushed, then Function(f) pops them *)
+    rewrite emit_cached_fun in He. inversion Hw as [| | |f0 cs0 fd0 Hf Hcaps Hcs|]; subst. rewrite Hf in He.
+    destruct (emit_list cs X) as [[X0 is]|] eqn:EL; [|discriminate]. inv He.
+    assert (L : extends X X1 /\ forall Y, extends X1 Y -> pushes Y is (flat_map emit_inputs cs) cs).
+    { clear Hf Hcaps Hw. revert X X1 is EL Hcs. induction cs as [|e l IHl]; intros X X1 is EL Hcs; cbn [emit_list] in EL.
+      - inv EL. split; [apply extends_refl|]. intros Y _ fn fd pre post st lo base caps rest pers Hfd Hc.
+        cbn. rewrite Nat.add_0_r. reflexivity.
+      - destruct (emit_cached bytes_of e X) as [[Xa ia]|] eqn:Ea; [|discriminate].
+        destruct (emit_list l Xa) as [[Xb ib]|] eqn:Eb; [|discriminate]. inv EL.
+        inversion IH as [|? ? IHe IHrest]; subst. inversion Hcs as [|? ? We Wl]; subst.
+        destruct (IHe _ _ _ Ea We) as [Ext1 P1].
+        assert (Wl' : Forall (wfx Xa) l) by (rewrite Forall_forall in *; intros y Hy; eapply wfx_ext; eauto).
+        destruct (IHl IHrest _ _ _ Eb Wl') as [Ext2 P2].
+        split; [eapply extends_trans; eauto|].
+        intros Y HY. cbn [flat_map]. change (e :: l) with ([e] ++ l). apply pushes_app.
+        + apply P1. eapply extends_trans; eauto.
+        + apply P2. exact HY. }
+    destruct L as [Ext PL]. split; [exact Ext|].
+    intros Y HY. rewrite emit_inputs_fun. eapply pushes_then; [apply PL; exact HY|].
+    intros fn fd pre post st lo base caps rest pers Hfd Hc.
+    destruct (step_at Y fn fd pre (IFunction f) post Hfd Hc) as [C N].
+    unfold step, at_pc; cbn [frames fr_fn fr_pc stack]. rewrite C, N.
+    assert (HF : nth_error (p_funcs (project Y)) f = Some (erase_func fd0)).
+    { unfold project; cbn [p_funcs]. destruct HY as (_ & FY & _). destruct Ext as (_ & F1 & _).
+      apply nth_error_map_some. eapply prefix_nth; [exact FY|]. eapply prefix_nth; [exact F1|]. exact Hf. }
+    rewrite HF. cbn [erase_func f_caps]. rewrite Hcaps, popn_rev, app_nil_r. reflexivity.
+  - (* builtin *)
+    cbn [emit_cached] in He. destruct (b <? length (x_builtins X)) eqn:Eb; [|discriminate]. inv He.
+    split; [apply extends_refl|]. intros Y HY. apply pushes_one.
+    intros fn fd pre post st lo base caps rest pers Hfd Hc.
+    destruct (step_at Y fn fd pre (IBuiltin b) post Hfd Hc) as [C N].
+    unfold step, at_pc; cbn [frames fr_fn fr_pc stack]. rewrite C, N.
+    unfold project at 1; cbn [p_nbuiltins]. destruct HY as (_ & _ & _ & BY). apply prefix_len in BY.
+    apply Nat.ltb_lt in Eb. replace (length (x_builtins Y) <=? b) with false by (symmetry; apply Nat.leb_gt; lia).
+    reflexivity.
+  - discriminate.
+  - discriminate.
+Qed.
+
+End REEMIT_PROOFS.
+
+(* value_reemit: for every value without process / resource / ref that value_to_instructions_from_cache
+   accepts, the emitted code — placed anywhere in a function of the (grown) program, started on any
+   stack — pushes exactly that value and leaves everything else alone. *)
+Theorem value_reemit bytes_of v X X1 code :
+  emit_cached bytes_of v X = Some (X1, code) -> wfx X v ->
+  extends X X1 /\
+  forall Y, extends X1 Y ->
+  forall fn fd pre post st lo base caps rest pers,
+    nth_error (x_funcs Y) fn = Some fd -> xf_code fd = pre ++ code ++ post ->
+    run (project Y) (at_pc st lo fn base caps (length pre) rest pers) (emit_inputs v) =
+    Next (at_pc (v :: st) lo fn base caps (length pre + length code) rest pers).
+Proof.
+  intros He Hw. destruct (emit_cached_pushes bytes_of v X X1 code He Hw) as [E P]. split; [exact E|].
+  intros Y HY fn fd pre post st lo base caps rest pers Hfd Hc. exact (P Y HY fn fd pre post st lo base caps rest pers Hfd Hc).
+Qed.
+
+(* ... and it is total on such values: only process / resource / ref (and dangling ids) are refused *)
+Fixpoint plain (v : value) : Prop :=
+  match v with
+  | VProc _ _ | VRes _ _ | VRef _ => False
+  | VTuple _ fs => (fix all (l : list value) : Prop := match l with [] => True | x :: t => plain x /\ all t end) fs
+  | VFun _ cs => (fix all (l : list value) : Prop := match l with [] => True | x :: t => plain x /\ all t end) cs
+  | _ => True
+  end.
+
 (* ------------------------------------------------------------------ non-vacuity *)
 Module Examples.
 (* names as bytes *)
@@ -903,4 +1227,42 @@ Proof.
   - constructor; [reflexivity | constructor].
   - repeat constructor.
 Qed.
+
+(* --- value_reemit is not vacuous: a module value with a closure over an integer and a binary,
+   inside a named tuple; emitted into a program that already holds one of the constants *)
+Definition exM : xprogram := {|
+  x_consts := [XInt 5];
+  x_funcs := [ {| xf_code := [IPop; ILoad 0]; xf_caps := 2; xf_type := 0 |};
+               {| xf_code := [IPop]; xf_caps := 0; xf_type := 0 |} ];
+  x_tuples := [ {| xt_name := None; xt_fields := [] |}; {| xt_name := Some s_ok; xt_fields := [] |};
+                {| xt_name := Some s_p; xt_fields := [(Some s_x, 0); (None, 0)] |} ];
+  x_types := [TInt]; x_builtins := [ {| xb_name := s_q; xb_param := 0; xb_result := 0 |} ];
+  x_resources := []; x_entry := 1; x_rows := []; x_canon := [0; 1; 2]
+|}.
+Definition ex_bytes (h : nat) : list Z := [104; 105]%Z.
+Definition ex_value : value := VTuple 2 [VFun 0 [VInt 5; VBin 9]; VTuple 2 [VInt 7; VBuiltin 0]].
+
+Example ex_emit :
+  option_map snd (emit_cached ex_bytes ex_value exM) =
+  Some [IConstant 0; IConstant 1; IFunction 0; IConstant 2; IBuiltin 0; ITuple 2; ITuple 2].
+Proof. vm_compute. reflexivity. Qed.
+
+Example ex_emit_wf : wfx exM ex_value.
+Proof.
+  unfold ex_value. econstructor; [reflexivity | reflexivity |].
+  repeat constructor.
+  - econstructor; [reflexivity | reflexivity | repeat constructor].
+  - econstructor; [reflexivity | reflexivity | repeat constructor].
+Qed.
+
+(* the imported function is spliced into a new top-level function (index 2) and run there *)
+Example ex_emit_runs :
+  match emit_cached ex_bytes ex_value exM with
+  | Some (X1, code) =>
+      let Y := with_funcs X1 (x_funcs X1 ++ [ {| xf_code := [IPop] ++ code ++ [IStore]; xf_caps := 0; xf_type := 0 |} ]) in
+      run (project Y) (at_pc [] [] 2 0 0 1 [] false) (emit_inputs ex_value) =
+      Next (at_pc [ex_value] [] 2 0 0 8 [] false)
+  | None => False
+  end.
+Proof. vm_compute. reflexivity. Qed.
 End Examples.
